@@ -192,6 +192,9 @@ func (g *Gen) genTx(fam string) *world.TxJSON {
 		if g.R.Intn(25) == 0 {
 			args[5] = make([]byte, 300)
 		}
+		if g.R.Intn(300) == 0 {
+			args[5] = make([]byte, []int{16383, 16384, 32767, 32768, 40000}[g.R.Intn(5)]) // one very long field
+		}
 		extra := uint64(0)
 		for _, a := range args {
 			extra += uint64(len(a))
